@@ -4,6 +4,7 @@ token = ('prep', receiver)  [marker: an expression is prepared here, nothing is 
         | ('lit', text) | ('hole', expr string) | ('call', method, receiver, args string) | ('if', cond string, then tokens, else tokens)
         | ('match', scrutinee, [(pattern string, tokens)]) | ('for', iter string, tokens) | ('closure-call', callee, [tokens per closure arg])
 """
+import re
 import sir
 
 EMIT_METHODS = {"value_expr", "lvalue_path", "lvalue_state_expr", "write_lvalue_path", "to_lvalue_path_arr", "write_as_extra_argument"}
@@ -40,6 +41,45 @@ def _helper_pieces(x):
         tail = last.get("e") if last.get("k") == "expr" and not last.get("semi") else None
         return sir.format_call(tail) if tail is not None else None
     return None
+
+
+_DISPLAY_CACHE = {}
+
+
+def _display_pieces(nm):
+    """format pieces written by the `Display` impl of the type of the generator local / parameter `nm`, when that type is a struct of
+    the generator with a hand-written `Display` (a `flags: EventBindingFlags` that prints `!0,!1,!0`): the hole prints those pieces"""
+    import prectables as _pt
+    idx = getattr(_pt, "INDEX", None)
+    if idx is None:
+        return None
+    key = (id(idx), nm)
+    if key in _DISPLAY_CACHE:
+        return _DISPLAY_CACHE[key]
+    res = None
+    disp = {}
+    for g in idx.fns:
+        if g.name == "fmt" and g.body and g.trait and g.trait.split("::")[-1] == "Display" and g.base and any(m in g.module for m in ("proc_gen", "group", "binding_map")):
+            ws = [sir.write_fmt_call(y) for y in sir.walk(g.body)]
+            ws = [w for w in ws if w]
+            if len(ws) == 1:
+                disp[g.base] = ws[0][1]
+    if disp:
+        tys = set()
+        for g in idx.fns:
+            if not g.body or not any(m in g.module for m in ("proc_gen", "group", "binding_map")):
+                continue
+            if nm in [x for x in g.param_names() if x]:
+                t = re.sub(r"[&\s]|mut\b", "", str(g.param_ty(nm) or "")).split("::")[-1]
+                tys.add(t)
+            for y in sir.walk(g.body):
+                if y.get("k") == "local" and y["pat"].get("k") == "p_ident" and y["pat"].get("name") == nm and y.get("init") is not None:
+                    i_ = sir.strip_ref(y["init"])
+                    tys.add(i_["path"].split("::")[-1] if i_.get("k") == "struct" else "?")
+        if len(tys) == 1 and list(tys)[0] in disp:
+            res = disp[list(tys)[0]]
+    _DISPLAY_CACHE[key] = res
+    return res
 
 
 _DEPTH = [0]
@@ -155,6 +195,15 @@ def _hole(e, out, depth):
                     out.append(("lit", p[1]))
                 else:
                     _hole(p[1], out, depth + 1)
+            return
+    if nm is not None and depth < 3:
+        dp = _display_pieces(nm)
+        if dp is not None:
+            for p in dp:
+                if p[0] == "lit":
+                    out.append(("lit", p[1]))
+                else:
+                    out.append(("hole", sir.expr_str(p[1]) if isinstance(p[1], dict) else str(p[1])))
             return
     if isinstance(e, dict):
         x = sir.strip_ref(e)
